@@ -51,6 +51,18 @@ func vpCompare(parser *Parser, value pyObject, literal string, templates []strin
 	}
 }
 
+
+// comparisons inside the language between containers that merely contain the
+// value (what builtins hand back for an imported list is an ordinary list whose
+// items are still frozen)
+var vpWrappedComparisons = []string{
+	"[X] == [LIT]", "[X] != [LIT]", "{\"k\": X} == {\"k\": LIT}", "[[X]] == [[LIT]]",
+	"sorted(X) == sorted(LIT)", "reversed(X) == reversed(LIT)", "enumerate(X) == enumerate(LIT)", "zip(X, X) == zip(LIT, LIT)",
+	"X + [] == LIT", "[] + X == LIT", "[y for y in X] == LIT", "[y for y in X] == [y for y in LIT]", "X[0:] == LIT", "X[0:] != LIT",
+	"map(lambda y: y, X) == LIT", "filter(lambda y: True, X) == LIT", "(X if X else []) == LIT", "[X, 1] == [LIT, 1]",
+	"LIT in [X]", "X in [LIT]", "[LIT].count(X) == 1 if False else True",
+}
+
 var vpListTemplates = []string{
 	"len(X)", "X[0]", "X[-1]", "X[1:]", "X[:1]", "X[1:2]", "[y for y in X]", "[y for y in X if y]",
 	"X + [9]", "[9] + X", "X + X", "X == LIT", "LIT == X", "X != LIT", "X == X", "X != [9]", "X == [9]",
@@ -77,6 +89,7 @@ func vpH_C18_lists() {
 	l := pyList{pyInt(e1), pyInt(e2), pyInt(1)}
 	lit := "[" + digits[vpConcretizeInt(e1)] + ", " + digits[vpConcretizeInt(e2)] + ", 1]"
 	vpCompare(parser, l, lit, vpListTemplates)
+	vpCompare(parser, l, lit, vpWrappedComparisons)
 	ls := pyList{pyString("b"), pyString("a")}
 	vpCompare(parser, ls, `["b", "a"]`, []string{
 		`", ".join(X)`, "sorted(X)", `"a" in X`, "X == LIT", `[y.upper() for y in X]`, "min(X)", "max(X)", "len(X)", "{y: 1 for y in X}", "reversed(X)",
@@ -87,6 +100,7 @@ func vpH_C18_lists() {
 		"sorted(X)", "reversed(X[0])", "min(X[0])", "any(X[0])", "enumerate(X[0])", "isinstance(X[0], list)", "X[1] == [0]",
 		"WRITE:y = X[0]\ny[0] = 7\nr = 1", // writing through a nested element
 	})
+	vpCompare(parser, ln, "[["+digits[vpConcretizeInt(e1)]+", 0], [0]]", vpWrappedComparisons)
 	lp := pyList{pyList{pyInt(e1), pyInt(5)}, pyList{pyInt(e2), pyInt(6)}}
 	vpCompare(parser, lp, "[["+digits[vpConcretizeInt(e1)]+", 5], ["+digits[vpConcretizeInt(e2)]+", 6]]", []string{
 		"[p + q for p, q in X]", "{str(p): q for p, q in X}", "r = 0\nfor p, q in X:\n    r = r + p * q", "a, b = X\nr = a + b", "a, b = X[0]\nr = a + b",
@@ -110,4 +124,8 @@ func vpH_C18_dicts() {
 	d := pyDict{"k": pyInt(e1), "j": pyInt(2), "l": pyList{pyInt(1)}}
 	lit := `{"k": ` + []string{"0", "1", "2"}[vpConcretizeInt(e1)] + `, "j": 2, "l": [1]}`
 	vpCompare(parser, d, lit, vpDictTemplates)
+	vpCompare(parser, d, lit, []string{
+		"[X] == [LIT]", "{\"k\": X} == {\"k\": LIT}", "X.values() == LIT.values()", "X.items() == LIT.items()", "[v for k, v in X.items() if k == \"l\"] == [[1]]",
+		"(X | {}) == LIT", "X.copy() == LIT", "[X[\"l\"]] == [[1]]", "{k: v for k, v in X.items()} == LIT", "sorted(X.keys()) == sorted(LIT.keys())",
+	})
 }
